@@ -70,6 +70,17 @@ func c02Scenarios(tier string) []*Scenario {
 			}
 		}
 	}
+	// a successful handler whose single response the caller gives up on (context done) at any instant:
+	// no later receive may report a clean end of stream unless the caller did get the response
+	for _, tr := range []string{"inproc", "http"} {
+		for _, c := range []string{"cancel", "deadline"} {
+			if c == "deadline" && tier != "thorough" {
+				continue
+			}
+			add(tr, c, RPC{Kind: "cs", Client: []string{"S0", "C", "R*", "R", "R"}, Handler: []string{"r*", "s0", "ret:ok"}})
+			add(tr, c, RPC{Kind: "cs", Client: []string{"S0", "C", "R*", "R"}, Handler: []string{"r*", "h:a", "s0", "t:b", "ret:ok"}})
+		}
+	}
 	// Header() asked for by another goroutine while the receive is under way: the failure still reaches the receiver
 	for _, tr := range []string{"inproc", "http"} {
 		for _, ret := range []string{"ret:st:5", "ret:plain"} {
@@ -84,6 +95,17 @@ func c02Scenarios(tier string) []*Scenario {
 			add(tr, "", RPC{Kind: "bd", Client: []string{"S0", "R*", "R"}, Handler: h})
 		}
 		add(tr, "", RPC{Kind: "cs", Client: []string{"S0", "R*", "R"}, Handler: []string{"r", "ret:st:9"}})
+		if tr == "http" {
+			// on a server in full-duplex mode the reply does not wait for the end of the request
+			for _, h := range [][]string{{"r", "ret:st:9"}, {"ret:st:9"}, {"r", "s0", "ret:st:9"}, {"r", "h:a", "t:b", "ret:st:9"}} {
+				for _, kind := range []string{"bd", "cs"} {
+					add(tr, "", RPC{Kind: kind, Client: []string{"S0", "R*", "R"}, Handler: h})
+					sc := out[len(out)-1]
+					sc.Opts = "fullduplex"
+					sc.Name += "|env=fullduplex"
+				}
+			}
+		}
 		if tr == "http" {
 			// the same with the server answering before the request has ended (net/http gives up
 			// waiting for the rest of a long upload and closes the connection after the reply)
@@ -131,6 +153,11 @@ func c02Oracle(sc *Scenario, rec *Rec, s *mc.Sched) []mc.Violation {
 		}
 		if success && (ref.Status != "nil" || !complete) {
 			add("success-on-failure", fmt.Sprintf("receive #%d reported %s after %d/%d messages although the handler returned %s", k, res, len(rr.CliRecv), len(ref.Msgs), ref.Code))
+		}
+		if !rpc.serverStreams() && rpc.Kind != "unary" && k > 0 && res == "EOF" && rr.RecvRes[0] != "nil" && ref.Status == "nil" && !complete {
+			// the first receive gave up (context done) and a later one says the stream ended cleanly: that is
+			// "success" reported for a response the caller never obtained
+			add("clean-end-without-response", fmt.Sprintf("receive #0 reported %s, receive #%d reported EOF, the caller never obtained the response", normFinal(rr.RecvRes[0]), k))
 		}
 		if res == "nil" && rpc.serverStreams() {
 			continue // a message
